@@ -1062,6 +1062,39 @@ def _set_bit_in_byte(byte, bit: int, v: U):
     return (bz & z3.BitVecVal((~(1 << bit)) & 0xFF, 8)) | (vb << z3.BitVecVal(bit, 8))
 
 
+class Ops(SymAVM):
+    """AVM primitive semantics as functions (used by the reference evaluators): the operands
+    are pushed on a private stack, one instruction is executed, the results are popped."""
+
+    def __init__(self, cfg: CtxConfig, path: Path, world: World, bounds: Optional[Bounds] = None):
+        self.prog = None
+        self.cfg = cfg
+        self.bounds = bounds or Bounds()
+        self.record_const_loads = False
+        self.record_exits = False
+        self.path = path
+        self.w = world
+        self.st = []
+        self.scratch = {}
+        self.calls = []
+        self.intc = []
+        self.bytec = []
+
+    def apply(self, op: str, imms, *operands):
+        from ..teal.parse import Instr
+        self.st = list(operands)
+        self.step(Instr(op=op, args=list(imms), raw=[], line=0), [])
+        res = self.st
+        self.st = []
+        return res
+
+    def apply1(self, op: str, imms, *operands):
+        r = self.apply(op, imms, *operands)
+        if len(r) != 1:
+            raise HarnessError("apply1(%s): %d results" % (op, len(r)))
+        return r[0]
+
+
 def run_program(prog: Program, cfg: CtxConfig, eng: Engine, bounds: Optional[Bounds] = None,
                 assumptions=(), shape=None, **kw) -> List[Outcome]:
     vm = SymAVM(prog, cfg, bounds, **kw)
